@@ -164,7 +164,10 @@ def scenarios():
                        "C_{}().m()".format(name), stage, exc)
         for check_on in ("", ", check_on=icontract.InvariantCheckEvent.CALL", ", check_on=icontract.InvariantCheckEvent.SETATTR",
                          ", check_on=icontract.InvariantCheckEvent.ALL"):
-            for form in ("async def ainv(self):\n    return True\n", "async def ainv():\n    return True\n"):
+            for form in ("async def ainv(self):\n    return True\n", "async def ainv():\n    return True\n",
+                         # a coroutine function in the guise of a callable object, and an asynchronous generator function
+                         "class ACond:\n    async def __call__(this, self):\n        return True\n\n\nainv = ACond()\n",
+                         "async def ainv(self):\n    yield True\n"):
                 n += 1
                 name = "f{}".format(n)
                 d = form + "@icontract.invariant(ainv{})\nclass C_{}{}:\n    def m(self):\n        return HUB.body({!r}, {{}})".format(
